@@ -1,1 +1,50 @@
-From Dagrt Require Import GenLang Lang Stepper.
+(* C01 -- property theorems only.  Model: Stepper.run (the stepping loop both backends
+   implement) over phase bodies produced by the builder model, with statement semantics
+   Lang.exec_stmt.  Shape switches from gen/GenLang.v. *)
+From Coq Require Import List String ZArith.
+From Dagrt Require Import GenLang Lang Builder Sched SchedProofs Stepper StepperProofs.
+
+Definition is_state_var : var -> bool := is_state_of state_exact state_prefixes.
+Notation built_phase := (built is_state_var exec_state_token).
+
+(* one phase body: every admissible order (a permutation in which each statement follows the
+   statements it depends on -- C04 proves this of the interpreter's plan, C05 of the tree the
+   generator walks) gives the same events, the same variable values and the same way of ending
+   as carrying out the builder calls one after another *)
+Theorem C01_body : forall F del_guarded keep l l' s,
+  built_phase l -> lv_ok keep l -> admissible l l' -> Pre keep s ->
+  req (to_rstate (exec_seq F del_guarded l' s nil)) (to_rstate (exec_seq F del_guarded l s nil)).
+Proof. exact (fun F g keep => body_order_independent F g is_state_var exec_state_token keep). Qed.
+Print Assumptions C01_body.
+
+(* whole runs, bounded by a step count or an end time: two steppers that execute the bodies of the
+   phases in any admissible orders (possibly different at every step) produce the same sequence of
+   events (yields; step completed / failed with t, dt, current and next phase and the persistent
+   state after the step), the same next phase and the same way of ending; and the same persistent
+   state unless an exception escapes (C11 covers that state) *)
+Theorem C01_run : forall F del_guarded keep obs ord1 ord2 d,
+  (forall p, In p d -> built_phase (ph_stmts p) /\ lv_ok keep (ph_stmts p)) ->
+  (forall p i, In p d -> admissible (ph_stmts p) (ord1 (ph_name p) i (ph_stmts p))) ->
+  (forall p i, In p d -> admissible (ph_stmts p) (ord2 (ph_name p) i (ph_stmts p))) ->
+  forall fuel s next t_end max_steps,
+  Pre keep s ->
+  run_rel (run F del_guarded keep obs ord1 fuel d s next t_end max_steps 0 0)
+          (run F del_guarded keep obs ord2 fuel d s next t_end max_steps 0 0).
+Proof.
+  exact (fun F g keep obs ord1 ord2 d Hd H1 H2 fuel s next te mx Hp =>
+    run_order_independent F g keep obs ord1 ord2 d
+      (fun p i s0 Hin Hp0 =>
+         req_trans _ _ _
+           (body_order_independent F g is_state_var exec_state_token keep _ _ s0
+              (proj1 (Hd p Hin)) (proj2 (Hd p Hin)) (H1 p i Hin) Hp0)
+           (req_sym _ _ (body_order_independent F g is_state_var exec_state_token keep _ _ s0
+              (proj1 (Hd p Hin)) (proj2 (Hd p Hin)) (H2 p i Hin) Hp0)))
+      fuel s s next te mx 0 0 Hp (fun _ => eq_refl)).
+Qed.
+Print Assumptions C01_run.
+
+(* program order itself is admissible: "both equal the result of carrying out the builder calls
+   one after another" is the instance ord2 = fun _ _ l => l of C01_run *)
+Theorem C01_program_order_admissible : forall l, built_phase l -> admissible l l.
+Proof. exact (admissible_refl is_state_var exec_state_token). Qed.
+Print Assumptions C01_program_order_admissible.
